@@ -320,6 +320,14 @@ def run(case, rec):
     if case.get("num_processes"):
         kwargs["num_processes"] = case["num_processes"]
         rec.count("with_worker_processes")
+        if not case.get("float32"):
+            # the field object is the state of a running simulation: it was analysed before (with worker processes as
+            # well) when it still held another image, and was updated in place since
+            final = np.array(field.data, copy=True)
+            field.data[...] = np.roll(final, [max(1, n_ // 2) for n_ in final.shape], axis=tuple(range(final.ndim)))
+            common.monitored(rec, "earlier:locate_droplets", droplets.locate_droplets, field, **{**kwargs, "refine_args": dict(kwargs["refine_args"])})
+            field.data[...] = final
+            rec.count("field_object_analysed_before_with_another_image")
     if case.get("preview"):
         pk = dict(kwargs)
         pk["refine_args"] = {**dict(case["refine_args"]), **{k: (dict(v) if isinstance(v, dict) else v) for k, v in case["preview"].items()}}
